@@ -383,7 +383,261 @@ def t_hoist(fn):
     return n[0] > 0
 
 
-KINDS = {'rename': t_rename, 'swap': t_swap, 'flip': t_flip, 'alias': t_alias, 'early': t_early, 'demorgan': t_demorgan,
+# ---- extraction kinds: a piece of the function moves into a new helper (method of the same class / module function)
+
+_SIMPLE_STMTS = (ast.Assign, ast.AugAssign, ast.Expr, ast.If, ast.For, ast.With)
+
+
+def _block_ok(stmts):
+    for s in stmts:
+        if not isinstance(s, _SIMPLE_STMTS):
+            return False
+        for n in ast.walk(s):
+            if isinstance(n, (ast.Return, ast.Yield, ast.YieldFrom, ast.Await, ast.Break, ast.Continue, ast.Global, ast.Nonlocal, ast.Delete,
+                              ast.FunctionDef, ast.AsyncFunctionDef, ast.ClassDef, ast.Lambda, ast.NamedExpr, ast.Try, ast.Raise)):
+                return False
+            if isinstance(n, ast.Call) and isinstance(n.func, ast.Name) and n.func.id in ('locals', 'vars', 'super'):
+                return False
+    return True
+
+
+def _names(stmts, ctx):
+    out = []
+    for s in stmts:
+        for n in ast.walk(s):
+            if isinstance(n, ast.Name) and isinstance(n.ctx, ctx) and n.id not in out:
+                out.append(n.id)
+    return out
+
+
+def _helper_kind(fn):
+    """'method' (first parameter self, no decorators), 'function' (module level) or None"""
+    if fn.decorator_list:
+        return None
+    a = fn.args
+    if a.args and a.args[0].arg == 'self':
+        return 'method'
+    return getattr(fn, '_container_kind', None)
+
+
+def _extract_window(fn, which):
+    """move a run of 2-3 consecutive statements of the function body into a helper; which = 0 (first eligible), 1 (middle), 2 (last)"""
+    hk = _helper_kind(fn)
+    if hk is None:
+        return False
+    body = fn.body
+    start0 = 1 if body and isinstance(body[0], ast.Expr) and isinstance(body[0].value, ast.Constant) else 0
+    fn_locals = _locals_of(fn) | {a.arg for a in ast.walk(fn.args) if isinstance(a, ast.arg)}
+    cands = []
+    for i in range(start0, len(body) - 1):
+        for ln in (3, 2):
+            blk = body[i:i + ln]
+            if len(blk) < 2 or i + ln > len(body) - 0 or not _block_ok(blk):
+                continue
+            if i + ln == len(body):
+                continue            # leave at least the last statement in place
+            stored = _names(blk, (ast.Store,))
+            after = _names(body[i + ln:], (ast.Load,))
+            outs = [n for n in stored if n in after]
+            # a name stored in the block and also assigned before it and read after it on a path that skips the store: keep simple
+            if len(outs) > 2:
+                continue
+            loaded = _names(blk, (ast.Load,))
+            before_stored = set(_names(body[:i], (ast.Store,))) | {a.arg for a in ast.walk(fn.args) if isinstance(a, ast.arg)}
+            # inputs: names whose first occurrence in the block (document order, value before target) is a read
+            first = {}
+
+            def occ(n):
+                if isinstance(n, (ast.Assign, ast.AugAssign, ast.AnnAssign)):
+                    if isinstance(n, ast.AugAssign):
+                        occ(n.target) if not isinstance(n.target, ast.Name) else first.setdefault(n.target.id, 'load')
+                    if n.value is not None:
+                        occ(n.value)
+                    for t in (n.targets if isinstance(n, ast.Assign) else [n.target]):
+                        occ(t)
+                    return
+                if isinstance(n, ast.For):
+                    occ(n.iter)
+                    occ(n.target)
+                    for s_ in n.body + n.orelse:
+                        occ(s_)
+                    return
+                if isinstance(n, ast.Name):
+                    first.setdefault(n.id, 'load' if isinstance(n.ctx, ast.Load) else 'store')
+                    return
+                for c in ast.iter_child_nodes(n):
+                    occ(c)
+            for s_ in blk:
+                occ(s_)
+            ins = [n for n in loaded if n in fn_locals and n in before_stored and n != 'self' and first.get(n) == 'load']
+            # conditionally stored outputs must have a value on every path: require the output to be unconditionally stored
+            uncond = set()
+            for s in blk:
+                if isinstance(s, ast.Assign):
+                    for t in s.targets:
+                        uncond |= {x.id for x in ast.walk(t) if isinstance(x, ast.Name)}
+            if any(o not in uncond and o not in ins for o in outs):
+                continue
+            cands.append((i, ln, ins, outs))
+            break
+    if not cands:
+        return False
+    i, ln, ins, outs = cands[0] if which == 0 else cands[len(cands) // 2] if which == 1 else cands[-1]
+    blk = body[i:i + ln]
+    name = '_xf_%s_part%d' % (fn.name.strip('_'), which)
+    params = (['self'] if hk == 'method' else []) + ins
+    ret = [ast.Return(value=ast.Name(id=outs[0], ctx=ast.Load()) if len(outs) == 1 else ast.Tuple(elts=[ast.Name(id=o, ctx=ast.Load()) for o in outs], ctx=ast.Load()))] if outs else []
+    helper = ast.FunctionDef(name=name, args=ast.arguments(posonlyargs=[], args=[ast.arg(arg=p) for p in params], kwonlyargs=[], kw_defaults=[], defaults=[]),
+                             body=blk + ret, decorator_list=[], returns=None, type_comment=None, type_params=[])
+    func = ast.Attribute(value=ast.Name(id='self', ctx=ast.Load()), attr=name, ctx=ast.Load()) if hk == 'method' else ast.Name(id=name, ctx=ast.Load())
+    call = ast.Call(func=func, args=[ast.Name(id=n, ctx=ast.Load()) for n in ins], keywords=[])
+    if not outs:
+        new = ast.Expr(value=call)
+    elif len(outs) == 1:
+        new = ast.Assign(targets=[ast.Name(id=outs[0], ctx=ast.Store())], value=call)
+    else:
+        new = ast.Assign(targets=[ast.Tuple(elts=[ast.Name(id=o, ctx=ast.Store()) for o in outs], ctx=ast.Store())], value=call)
+    ast.copy_location(new, blk[0])
+    fn.body = body[:i] + [new] + body[i + ln:]
+    fn._siblings = [helper]
+    return True
+
+
+def t_extract0(fn):
+    return _extract_window(fn, 0)
+
+
+def t_extract1(fn):
+    return _extract_window(fn, 1)
+
+
+def t_extract2(fn):
+    return _extract_window(fn, 2)
+
+
+def _extract_test(fn, which):
+    """the test of the which-th top-level-reachable `if` moves into a predicate helper"""
+    hk = _helper_kind(fn)
+    if hk is None:
+        return False
+    ifs = []
+
+    def rec(body):
+        for st in body:
+            if isinstance(st, (ast.FunctionDef, ast.AsyncFunctionDef, ast.ClassDef)):
+                continue
+            if isinstance(st, ast.If) and not any(isinstance(n, (ast.Yield, ast.YieldFrom, ast.Await, ast.Lambda, ast.NamedExpr, ast.ListComp, ast.GeneratorExp,
+                                                                  ast.SetComp, ast.DictComp)) for n in ast.walk(st.test)) and \
+                    not isinstance(st.test, (ast.Name, ast.Constant)):
+                ifs.append(st)
+            for fld in ('body', 'orelse', 'finalbody'):
+                b = getattr(st, fld, None)
+                if isinstance(b, list) and b and isinstance(b[0], ast.stmt):
+                    rec(b)
+            for h in getattr(st, 'handlers', []) or []:
+                rec(h.body)
+    rec(fn.body)
+    if len(ifs) <= which:
+        return False
+    st = ifs[which]
+    fn_locals = _locals_of(fn) | {a.arg for a in ast.walk(fn.args) if isinstance(a, ast.arg)}
+    ins = [n for n in _names([ast.Expr(value=st.test)], (ast.Load,)) if n in fn_locals and n != 'self']
+    name = '_xp_%s_test%d' % (fn.name.strip('_'), which)
+    params = (['self'] if hk == 'method' else []) + ins
+    helper = ast.FunctionDef(name=name, args=ast.arguments(posonlyargs=[], args=[ast.arg(arg=p) for p in params], kwonlyargs=[], kw_defaults=[], defaults=[]),
+                             body=[ast.Return(value=st.test)], decorator_list=[], returns=None, type_comment=None, type_params=[])
+    func = ast.Attribute(value=ast.Name(id='self', ctx=ast.Load()), attr=name, ctx=ast.Load()) if hk == 'method' else ast.Name(id=name, ctx=ast.Load())
+    st.test = ast.copy_location(ast.Call(func=func, args=[ast.Name(id=n, ctx=ast.Load()) for n in ins], keywords=[]), st.test)
+    fn._siblings = [helper]
+    return True
+
+
+def t_xtest0(fn):
+    return _extract_test(fn, 0)
+
+
+def t_xtest1(fn):
+    return _extract_test(fn, 1)
+
+
+def t_unpack(fn):
+    """`s[0]` / `s[1]` reads of a name that is never subscripted otherwise nor re-bound -> `s_0, s_1 = s` once, then the two locals
+    (length two is assumed, as the refactorings of that kind do)"""
+    params = [a.arg for a in fn.args.args + fn.args.kwonlyargs]
+    stores = {}
+    for n in ast.walk(fn):
+        if isinstance(n, ast.Name) and isinstance(n.ctx, (ast.Store, ast.Del)):
+            stores[n.id] = stores.get(n.id, 0) + 1
+    subs = {}
+    other = set()
+    for n in ast.walk(fn):
+        if isinstance(n, ast.Subscript) and isinstance(n.value, ast.Name) and isinstance(n.ctx, ast.Load) and isinstance(n.slice, ast.Constant) and \
+                n.slice.value in (0, 1) and not isinstance(n.slice.value, bool):
+            subs.setdefault(n.value.id, set()).add(n.slice.value)
+        elif isinstance(n, ast.Subscript) and isinstance(n.value, ast.Name):
+            other.add(n.value.id)
+    used = {x.id for x in ast.walk(fn) if isinstance(x, ast.Name)}
+    done = 0
+    for nm, idx in sorted(subs.items()):
+        if idx != {0, 1} or nm in other or nm not in params or stores.get(nm, 0) or nm == 'self':
+            continue
+        a, b = nm + '_0', nm + '_1'
+        if a in used or b in used:
+            continue
+
+        class R(ast.NodeTransformer):
+            def visit_Subscript(self, n):
+                self.generic_visit(n)
+                if isinstance(n.value, ast.Name) and n.value.id == nm and isinstance(n.ctx, ast.Load) and isinstance(n.slice, ast.Constant):
+                    return ast.copy_location(ast.Name(id=a if n.slice.value == 0 else b, ctx=ast.Load()), n)
+                return n
+
+            def visit_Lambda(self, n):
+                return n
+        # nested scopes reading nm[k] keep working: the new locals are visible there as well (closures), lambdas are left alone
+        R().visit(fn)
+        k = 1 if fn.body and isinstance(fn.body[0], ast.Expr) and isinstance(fn.body[0].value, ast.Constant) else 0
+        fn.body.insert(k, ast.Assign(targets=[ast.Tuple(elts=[ast.Name(id=a, ctx=ast.Store()), ast.Name(id=b, ctx=ast.Store())], ctx=ast.Store())],
+                                     value=ast.Name(id=nm, ctx=ast.Load())))
+        done += 1
+    return done > 0
+
+
+class _Aug(ast.NodeTransformer):
+    n = 0
+
+    def visit_AugAssign(self, node):
+        if isinstance(node.target, ast.Name):
+            self.n += 1
+            return ast.copy_location(ast.Assign(targets=[ast.Name(id=node.target.id, ctx=ast.Store())],
+                                                value=ast.BinOp(left=ast.Name(id=node.target.id, ctx=ast.Load()), op=node.op, right=node.value)), node)
+        return node
+
+    def visit_Return(self, node):
+        if node.value is None:
+            self.n += 1
+            node.value = ast.Constant(value=None)
+        return node
+
+    def visit_FunctionDef(self, node):
+        if getattr(node, '_top', False):
+            self.generic_visit(node)
+        return node
+
+    def visit_Lambda(self, node):
+        return node
+
+
+def t_plain(fn):
+    """`x += e` -> `x = x + e` (plain names), bare `return` -> `return None`"""
+    fn._top = True
+    t = _Aug()
+    t.visit(fn)
+    return t.n > 0
+
+
+KINDS = {'extract0': t_extract0, 'extract1': t_extract1, 'extract2': t_extract2, 'xtest0': t_xtest0, 'xtest1': t_xtest1, 'unpack': t_unpack,
+         'plain': t_plain, 'rename': t_rename, 'swap': t_swap, 'flip': t_flip, 'alias': t_alias, 'early': t_early, 'demorgan': t_demorgan,
          'comp2loop': t_comp2loop, 'forunpack': t_forunpack, 'ifexp': t_ifexp, 'hoist': t_hoist}
 
 
@@ -412,6 +666,8 @@ def _variant(root, qn, kind):
             if isinstance(st, (ast.FunctionDef, ast.AsyncFunctionDef, ast.ClassDef)) and st.name == parts[i]:
                 if i == len(parts) - 1:
                     if isinstance(st, (ast.FunctionDef, ast.AsyncFunctionDef)):
+                        st._container = body
+                        st._container_kind = 'function' if body is tree.body else None
                         found.append(st)
                 else:
                     rec(st.body, i + 1)
@@ -426,6 +682,9 @@ def _variant(root, qn, kind):
     fn = found[k - 1]
     if not KINDS[kind](fn):
         return None
+    for h in getattr(fn, '_siblings', []):
+        ast.copy_location(h, fn)
+        fn._container.insert(fn._container.index(fn) + 1, h)
     ast.fix_missing_locations(tree)
     new = ast.unparse(tree)
     try:
